@@ -572,7 +572,7 @@ var c07shapeNames = []string{
 	"lookup-index-oob", "sequence-index-oob", "rule-sets-shorter-than-classes", "class-oob-gpos2.2",
 	"mark-class-oob-gpos4.1", "mark-class-oob-gpos6.1", "filtering-set-oob", "empty-replacement", "empty-alternates",
 	"self-referential", "mutually-recursive", "nesting-depth", "many-actions", "lookup-order-oob", "one-component-ligature",
-	"recursive-growth",
+	"recursive-growth", "context-over-mark-with-marks-ignoring-ligature",
 }
 
 func c07buildShape(r *rand.Rand, which int) *c07shape {
@@ -748,6 +748,68 @@ func c07buildShape(r *rand.Rand, which int) *c07shape {
 	case "lookup-order-oob":
 		sh.ll = gtab.LookupList{c07single(), c07lig()}
 		sh.lookups = []gtab.LookupIndex{0, gtab.LookupIndex(2 + r.IntN(5)), 1, 0xFFFF}
+
+	case "context-over-mark-with-marks-ignoring-ligature":
+		// The enclosing context does not ignore marks and has a mark among its
+		// input glyphs; its first action is a ligature lookup that ignores
+		// marks (so the mark is skipped inside the ligature and moves behind
+		// it); further actions address later positions of the context.
+		nComp := 2 + r.IntN(3) // ligature components (all X)
+		markAfter := 1 + r.IntN(nComp-1)
+		var input []glyph.ID // input of the context: X.. M X..
+		for i := 0; i < nComp; i++ {
+			if i == markAfter {
+				input = append(input, hM)
+				if r.IntN(3) == 0 {
+					input = append(input, hM)
+				}
+			}
+			input = append(input, hX)
+		}
+		ligIn := make([]glyph.ID, nComp-1)
+		for i := range ligIn {
+			ligIn[i] = hX
+		}
+		lig := &gtab.LookupTable{Meta: &gtab.LookupMetaInfo{LookupType: 4, LookupFlags: gtab.IgnoreMarks},
+			Subtables: []gtab.Subtable{&gtab.Gsub4_1{Cov: coverage.Table{hX: 0}, Repl: [][]gtab.Ligature{{{In: ligIn, Out: hL}}}}}}
+		markSubst := &gtab.LookupTable{Meta: c07meta(1), Subtables: []gtab.Subtable{&gtab.Gsub1_2{Cov: coverage.Table{hX: 0, hM: 1, hL: 2}, SubstituteGlyphIDs: []glyph.ID{hY, hN, hA}}}}
+		acts := []gtab.SeqLookup{{SequenceIndex: 0, LookupListIndex: 1}}
+		for i, na := 0, 1+r.IntN(3); i < na; i++ {
+			acts = append(acts, gtab.SeqLookup{SequenceIndex: uint16(r.IntN(len(input))), LookupListIndex: 2})
+		}
+		if r.IntN(4) == 0 {
+			acts[0], acts[len(acts)-1] = acts[len(acts)-1], acts[0]
+		}
+		rest := input[1:]
+		restCls := make([]uint16, len(rest))
+		covs := make([]coverage.Set, len(input))
+		for i, g := range input {
+			covs[i] = coverage.Set{g: true}
+			if i > 0 {
+				restCls[i-1] = map[glyph.ID]uint16{hX: 1, hM: 2}[g]
+			}
+		}
+		var st gtab.Subtable
+		switch format {
+		case 0:
+			st = &gtab.SeqContext1{Cov: coverage.Table{hX: 0}, Rules: [][]*gtab.SeqRule{{{Input: rest, Actions: acts}}}}
+		case 1:
+			st = &gtab.SeqContext2{Cov: coverage.Table{hX: 0}, Input: classdef.Table{hX: 1, hM: 2},
+				Rules: [][]*gtab.ClassSeqRule{nil, {{Input: restCls, Actions: acts}}}}
+		case 2:
+			st = &gtab.SeqContext3{Input: covs, Actions: acts}
+		case 3:
+			st = &gtab.ChainedSeqContext1{Cov: coverage.Table{hX: 0}, Rules: [][]*gtab.ChainedSeqRule{{{Input: rest, Actions: acts}}}}
+		case 4:
+			st = &gtab.ChainedSeqContext2{Cov: coverage.Table{hX: 0}, Input: classdef.Table{hX: 1, hM: 2},
+				Rules: [][]*gtab.ChainedClassSeqRule{nil, {{Input: restCls, Actions: acts}}}}
+		default:
+			st = &gtab.ChainedSeqContext3{Input: covs, Actions: acts}
+		}
+		sh.ll = gtab.LookupList{{Meta: c07meta(c07ctxType(format, false)), Subtables: []gtab.Subtable{st}}, lig, markSubst}
+		sh.lookups = []gtab.LookupIndex{0}
+		sh.hot = []glyph.ID{hX, hX, hX, hM, hM, hY}
+		sh.name += ":" + c07ctxNames[format]
 
 	case "one-component-ligature":
 		st := &gtab.Gsub4_1{Cov: coverage.Table{hX: 0, hY: 1}, Repl: [][]gtab.Ligature{{{In: []glyph.ID{}, Out: hY}}, {}}}
